@@ -66,4 +66,19 @@ def ConcSt.step (cs : ConcSt) (m : Mem) (t : Nat) : Mem × ConcSt × String :=
         (m', { cs with threads := cs.threads.setIfInBounds t ts' },
           " | ".intercalate (a.render t :: rets))
 
+/-- Run a schedule (list of thread ids, one atomic access each) on the interleaving semantics,
+    each thread executing one program; returns the panic message of the first thread that dies. -/
+def runSched {α : Type} (threads : List (Prog α)) (m : Mem) (sched : List Nat) : Option String :=
+  let rec go (ths : List (Th α)) (m : Mem) : List Nat → Option String
+    | [] => none
+    | t :: rest =>
+      match ths[t]? with
+      | none => none
+      | some th =>
+        match th.step m with
+        | .done _ => go ths m rest
+        | .dead s => some s
+        | .step th' m' _ => go (ths.set t th') m' rest
+  go (threads.map Th.at) m sched
+
 end LLFree
